@@ -220,6 +220,11 @@ def generate(tier, rng):
     for d in ds:
         A = AREA + d - 8 - 4 - ct
         yield nxt(comment(literal_run(A) + b'a' * R), 'compressed-limit%+d' % d, dest='none' if d % 2 else 'cart')
+    # the same limit with a stream whose LAST token has two bytes (an escaped literal: a character outside the table),
+    # so that the token's second byte is the very last byte of a full code area
+    for d in (-1, 0, 1):
+        A = AREA + d - 8 - 4 - ct - 2
+        yield nxt(comment(literal_run(A) + b'a' * R + b'Z'), 'compressed-limit%+d-two-byte-end' % d, dest='none')
     # fits plain, compressed form (+8) does not
     R = 12
     ct = len(compress.compress_code(b'a' * R))
